@@ -152,6 +152,7 @@ type Exec struct {
 	pathUnknown   bool
 	auxVars       []*Term
 	asciiKnown    map[*Term]bool
+	clockLog      []*Term
 	rawInit       bool
 	deadline      time.Time
 	blockTicks    int
